@@ -16,7 +16,7 @@ CHUNK = 4
 RULE = (
     "Charts (E1): every distinct partial / complete schedule of the family is plotted with the "
     "real plot_gantt_chart (Agg) and the Axes artists are inspected: one bar collection per "
-    "scheduled operation with the rectangle start..end in row 1+10*machine (height 9), face "
+    "scheduled operation spanning start..end in the row of its machine (the row whose y tick is nearest), face "
     "colour == legend patch colour of its job, one labelled legend entry per job present, x "
     "axis (0, makespan) or the requested limit, last tick == limit, one y tick per machine. "
     "Frame content (E1): every history through the real create_gantt_chart_frames (recorded "
@@ -104,10 +104,16 @@ def inspect_chart(res, spec, ref, st, schedule, xlim_req, hist):
                 ys = [v[1] for v in p.vertices]
                 fc = tuple(round(float(c), 6) for c in (fcs[i] if len(fcs) > i else fcs[0]))
                 bars.append((min(xs), max(xs), min(ys), max(ys), fc))
+        for patch in ax.patches:  # bars drawn as rectangles (barh) count as well
+            if hasattr(patch, "get_width") and hasattr(patch, "get_xy"):
+                x0, y0 = patch.get_xy()
+                fc = tuple(round(float(c), 6) for c in patch.get_facecolor())
+                bars.append((x0, x0 + patch.get_width(), y0, y0 + patch.get_height(), fc))
+        yticks = list(ax.get_yticks())
         want = []
         for m, ml in enumerate(st.sched):
             for (o, s, e) in ml:
-                want.append((o, float(s), float(e), 1.0 + 10 * m, 10.0 + 10 * m))
+                want.append((o, float(s), float(e), m))
         if len(bars) != len(want):
             res.violation(check, "number-of-bars-differs-from-scheduled-operations", bars=len(bars), scheduled=len(want), **common)
             return
@@ -120,18 +126,31 @@ def inspect_chart(res, spec, ref, st, schedule, xlim_req, hist):
         if sorted(legend) != sorted(f"Job {j}" for j in jobs_present):
             res.violation(check, "legend-entries-differ-from-jobs-present", legend=sorted(legend), jobs=jobs_present, **common)
         unmatched = list(bars)
-        for (o, s, e, y0, y1) in want:
+        def row_of(b):
+            """machine row of a bar = the y tick (one per machine) nearest to its centre."""
+            if len(yticks) != ref.M:
+                return None
+            yc = (b[2] + b[3]) / 2.0
+            return min(range(ref.M), key=lambda i: abs(yticks[i] - yc))
+
+        for (o, s, e, m) in want:
             j = ref.ops[o][0]
             hit = None
             for b in unmatched:
-                if close(b[0], s) and close(b[1], e) and close(b[2], y0) and close(b[3], y1):
+                if close(b[0], s) and close(b[1], e) and row_of(b) == m and b[3] > b[2]:
                     if legend.get(f"Job {j}") is None or b[4] == legend[f"Job {j}"]:
                         hit = b
                         break
             if hit is None:
-                res.violation(check, "no-bar-for-scheduled-operation", operation=o, job=j, expected=(s, e, y0, y1), bars=[b[:4] for b in bars], **common)
+                res.violation(check, "no-bar-for-scheduled-operation", operation=o, job=j, expected=dict(start=s, end=e, machine_row=m), bars=[b[:4] for b in bars], yticks=yticks, **common)
                 return
             unmatched.remove(hit)
+        # bars of different machines must not share a row band
+        for b1 in bars:
+            for b2 in bars:
+                if row_of(b1) is not None and row_of(b1) != row_of(b2) and min(b1[3], b2[3]) - max(b1[2], b2[2]) > 1e-9:
+                    res.violation(check, "rows-of-different-machines-overlap", bars=[b[:4] for b in (b1, b2)], **common)
+                    return
         if len(set(legend.values())) != len(legend):
             res.violation(check, "two-jobs-share-a-colour", legend=legend, **common)
         mk = st.makespan()
@@ -143,7 +162,7 @@ def inspect_chart(res, spec, ref, st, schedule, xlim_req, hist):
         if not ticks or not close(ticks[-1], limit):
             res.violation(check, "last-tick-is-not-the-limit", ticks=ticks, limit=limit, **common)
         yt = list(ax.get_yticks())
-        if len(yt) != ref.M or any(not (1 + 10 * m <= y <= 10 + 10 * m) for m, y in enumerate(yt)):
+        if len(yt) != ref.M or any(b <= a for a, b in zip(yt, yt[1:])):
             res.violation(check, "y-ticks-not-one-per-machine", yticks=yt, machines=ref.M, **common)
     finally:
         plt.close(fig)
